@@ -175,7 +175,6 @@ pub fn ref_step(t: &mut RawMachine) -> RefEnd {
 /// never complete (fixed point), the step is run on a helper thread: not returning within 10 s is
 /// then a violation of "a step always returns" (fixed-point argument, not the clock, decides).
 fn asm_step_guarded(m: &mut Machine, critical: bool) -> Result<(), (String, String)> {
-    m.set_step_mode(StepMode::Assembly);
     if critical && HANG_SEEN.load(Ordering::SeqCst) {
         return Err(("c11:step-does-not-return".into(), "Assembly-mode step on an instruction that never completes did not return (seen earlier in this run)".into()));
     }
@@ -226,13 +225,18 @@ pub fn check_steps(c: &StepCase) -> (Verdict, StepStats) {
         };
     }
     let mut inputs_dirty = false;
+    // the step mode as the caller (this harness) last set it: nothing else may change it
+    let mut mode = m.step_mode();
     for (i, op) in c.ops.iter().enumerate() {
         if matches!(op, Op::Edges(_) | Op::CpuReset | Op::MasterReset | Op::Reload) {
             inputs_dirty = false;
         }
         match op {
             Op::Edges(n) => {
-                m.set_step_mode(StepMode::Real);
+                if mode != StepMode::Real {
+                    m.set_step_mode(StepMode::Real);
+                    mode = StepMode::Real;
+                }
                 for _ in 0..*n {
                     m.trigger_key_clock();
                     t.raw_mut().trigger_clock_edge();
@@ -273,6 +277,10 @@ pub fn check_steps(c: &StepCase) -> (Verdict, StepStats) {
                         return (Verdict::Pass, st);
                     }
                     inputs_dirty = false;
+                    if mode != StepMode::Assembly {
+                        m.set_step_mode(StepMode::Assembly);
+                        mode = StepMode::Assembly;
+                    }
                     if let Err((s, d)) = asm_step_guarded(&mut m, critical) {
                         fail!(s, format!("op #{} {:?}: {}", i, op, d));
                     }
@@ -350,6 +358,9 @@ pub fn check_steps(c: &StepCase) -> (Verdict, StepStats) {
         }
         if *m != *t {
             fail!("c11:machines-diverged", format!("after op #{} {:?} the mode-switching machine and the raw-edge twin differ", i, op));
+        }
+        if m.step_mode() != mode {
+            fail!("c11:step-mode-changed-behind-the-caller", format!("after op #{} {:?} the machine is in {:?} step mode although {:?} was set last", i, op, m.step_mode(), mode));
         }
     }
     (Verdict::Pass, st)
